@@ -93,6 +93,18 @@ def build : List String → List (Table × Bool) → List String → Option (Lis
         | .ok t' => build rest ((t', fz) :: st') ("ok" :: codes)
         | .error e => build rest st (showErr e :: codes)
       | _, _, _, _ => none
+    | "G" :: path :: hid :: rq, (t, fz) :: st' =>
+      -- add_get(path, handler): resource.add_route(HEAD) then resource.add_route(GET); a refusal of the second
+      -- leaves the first in place (code `…+H`)
+      match parseStr path, hid.toNat?, pairs rq with
+      | some path, some hid, some rq =>
+        match addRouteOn fz rq t [72, 69, 65, 68] path hid with
+        | .error e => build rest st (showErr e :: codes)
+        | .ok t1 =>
+          match addRouteOn fz rq t1 [71, 69, 84] path hid with
+          | .ok t2 => build rest ((t2, fz) :: st') ("ok" :: codes)
+          | .error e => build rest ((t1, fz) :: st') ((showErr e ++ "+H") :: codes)
+      | _, _, _ => none
     | "V" :: path :: hid :: _defined :: rq, (t, fz) :: st' =>
       match parseStr path, hid.toNat?, pairs rq with
       | some path, some hid, some rq =>
